@@ -179,6 +179,16 @@ func (x *Exec) KeyBytes(name string) []byte {
 			return []byte(name + strings.Repeat("_", n-len(name)))
 		}
 	}
+	if strings.HasPrefix(name, "W") && len(name) > 1 {
+		// wide key, 2.2 pages (at most the maximal key size): a single element needs overflow pages, in leaf and branch pages
+		n := x.pageSize() * 22 / 10
+		if n > refmodel.MaxKeySize {
+			n = refmodel.MaxKeySize
+		}
+		if n > len(name) {
+			return []byte(name + strings.Repeat("_", n-len(name)))
+		}
+	}
 	if strings.HasPrefix(name, "HUGE") { // 32769 bytes: too large
 		return bytes.Repeat([]byte("H"), refmodel.MaxKeySize+1)
 	}
